@@ -78,7 +78,8 @@ def deviated_statement_cases(tier):
 
 
 # ---------------------------------------------------------------- opaque regions
-BODY = [';', "'", '"', '$', '(', ')', '-', '/', '*', '\n', ' ', 'a', 'BEGIN', 'END', '`', ',', '--', '/*', 'CASE', ';;', '\\']
+BODY = [';', "'", '"', '$', '(', ')', '-', '/', '*', '\n', ' ', 'a', 'BEGIN', 'END', '`', ',', '--', '/*', 'CASE', ';;', '\\',
+        'END CASE', 'END LOOP']
 REGIONS = [
     # name, opener, closer, forbidden fragments in the body, forbidden substrings of the joined body
     ('single-quoted', "'", "'", ("'",), ("'",)),
